@@ -37,6 +37,7 @@ R_Amounts    == {3}
 R_Gaps       == {0, 1, 20, 21}
 R_Gaps3      == {1, 20, 21}
 R_SignerSets == {{k} : k \in MC_Keys} \cup {{"x1"}, {"c1"}}
+R_SignerSets3 == {{k} : k \in MC_Keys} \cup {{"x1"}}
 
 T_Strangers  == {"x1", "x2"}
 T_Ids        == {"i1", "i2"}
